@@ -430,7 +430,7 @@ def run_plumbing(R, tonic, comp, enabled):
             for mb, mt in mrs:
                 n += 1
                 R.check(mirlib.root_local(co, mt['args'][2]) == acc_local, 'C05.R4', 'srv:%s:accept-encoding-flows' % h, site(co, mb), 'accept_encoding argument = %s' % show(co.origin(mt['args'][2]))[:120])
-        R.floor('C05.R4', 'map_response call sites', n, 6)
+        R.floor('C05.R4', 'map_response call sites', n, 4)
         mr = tonic.body('server::grpc::Grpc::<T>::map_response')
         R.saw(mr)
         nb, nt = mr.call1(name='new_server')
